@@ -789,6 +789,33 @@ def c07_scenarios(n_seeds, seed):
             steps.append(start("l%d" % j, 60 + j, op="ListTopicSubs", topic=T1, size=0, token=""))
         steps += [{"do": "waitall"}, call(5, op="GetSub", name=S2), {"do": "drain", "c": 9}]
         out.append(scn("c07-B-%d" % k, steps, seed=sd, cap=cap))
+        # D: requests whose senders were GRANTED a place in the mailbox (a slot was freed for them)
+        # but have not put the request in yet when the actor exits: held library-level calls are
+        # exactly that (polled once, not polled again until `release`).  Every one of them must
+        # still be answered (by "closed"), and so must the delete(s).
+        if k < 12:
+            dcap = (1, 2)[k % 2]
+            nheld = 1 + (k // 2) % 3
+            hkinds = [dict(op="GetSub", name=S1), dict(op="DeleteSub", name=S1), dict(op="Pull", sub=S1, max=1, ri=True),
+                      dict(op="Ack", sub=S1, acks=[{"lit": "1"}])]
+            steps = [call(1, op="CreateTopic", name=T1), call(1, op="CreateSub", name=S1, topic=T1, ack=10),
+                     {"do": "gate", "name": "s.turn", "turns": 0}]
+            # the delete first, then fill the mailbox
+            steps.append(start("d", 2, op="DeleteSub", name=S1))
+            steps.append({"do": "settle"})
+            # (the gated actor has taken the delete out of the mailbox already)
+            for j in range(dcap):
+                steps.append({"do": "hold", "h": "f%d" % j, "c": 20 + j, "call": dict(op="GetSub", name=S1)})
+            # these wait for room; they are granted a slot as the actor drains, but stay unpolled
+            for j in range(nheld):
+                steps.append({"do": "hold", "h": "g%d" % j, "c": 30 + j, "call": hkinds[(j + k // 6) % len(hkinds)]})
+            if k % 3 == 2:
+                steps.append(start("d2", 3, op="DeleteSub", name=S1))
+            steps += [{"do": "gate", "name": "s.turn", "turns": -1}, {"do": "settle"}, {"do": "yield", "n": 20},
+                      {"do": "wait", "h": "d"}, {"do": "release"}, {"do": "waitall"},
+                      call(5, op="GetSub", name=S1), call(5, op="ListTopicSubs", topic=T1, size=0, token=""),
+                      {"do": "drain", "c": 9}]
+            out.append(scn("c07-D-%d" % k, steps, seed=sd, cap=dcap))
         # C: a blocking Pull that is woken with nothing to take (an empty publish, a competing
         # consumer) must still answer by its wait limit
         if k < 6:
@@ -830,7 +857,28 @@ def c07_mc(work, quick, violations):
                          switches={"DeleteDrainsMailbox": False}, invariants=["C07_NoHang"])
     if not pinned["error"]:
         raise V.ToolError("vacuity: the model with DeleteDrainsMailbox=FALSE does not show the C07 deadlock")
-    return {"stats": total, "runs": runs, "pinned_counterexample_steps": len(pinned["trace"])}
+    # requests whose senders were granted a mailbox permit before the actor exits: the repaired
+    # design (close + drain on exit) answers them, the pinned one leaves their callers hanging
+    gprocs = {"d": ("delete", "s1"), "d2": ("delete", "s1"), "q1": ("pull", "s1"), "pub": ("publish", "s1")}
+    if not quick:
+        gprocs["q2"] = ("ack", "s1")
+    for cap in (1, 2):
+        r = V.actors_mc(os.path.join(work, "mc"), "c07_granted%d" % cap, gprocs, cap=cap, backlog=1,
+                        invariants=["TypeOK", "C07_NoHang", "C07_ActorsIdle"], properties=["C10_DeleteAnswered"])
+        if r["stats"]:
+            total["generated"] += r["stats"]["generated"]
+            total["distinct"] += r["stats"]["distinct"]
+        runs.append({"cap": cap, "config": "granted", "stats": r["stats"], "error": r["error"]})
+        if r["error"]:
+            path = V.save_replay("C07", 0, {"kind": "model", "error": r["error"], "config": r["config"], "trace": r["trace"],
+                                            "tlc_output_tail": r["out"][-5000:]})
+            violations.append(("model DeltioActors: " + r["error"], path))
+    pinned2 = V.actors_mc(os.path.join(work, "mc"), "c07_pinned_exit", gprocs, cap=1, backlog=1,
+                          switches={"ExitDrainsGranted": False}, invariants=["C07_NoHang"])
+    if not pinned2["error"]:
+        raise V.ToolError("vacuity: the model with ExitDrainsGranted=FALSE does not show the lost request")
+    return {"stats": total, "runs": runs, "pinned_counterexample_steps": len(pinned["trace"]),
+            "pinned_exit_counterexample_steps": len(pinned2["trace"])}
 
 
 def plan_c07(prop, tier, seed, t0):
